@@ -153,10 +153,7 @@ def load_performance_midi(
             if isinstance(msg, mido.MetaMessage):
                 if msg.type == "set_tempo":
                     mpq = msg.tempo
-                    if (
-                        tempo_changes[-1][1] != mpq
-                    ):  # only add new tempo if it's different from the last one
-                        tempo_changes.append((ttick, mpq))
+                    tempo_changes.append((ttick, mpq))
                     time_conversion_factor = mpq / (ppq * 10**6)
                 elif msg.type == "time_signature":
                     time_signatures.append(
@@ -292,6 +289,10 @@ def load_performance_midi(
             )
 
             pps.append(pp)
+
+    # the tempo changes of all tracks form one tempo map, ordered by tick
+    # (a stable sort: at equal ticks the later event in file order wins)
+    tempo_changes = [tempo_changes[0]] + sorted(tempo_changes[1:], key=lambda x: x[0])
 
     # adjust timing of events based on tempo changes
     for pp in pps:
